@@ -160,13 +160,14 @@ Triples == { a \o b \o c : a \in FirstSeqs, b \in {<<27, 91, 51, 24>>, <<27, 91,
 \* systematic OSC payloads: every sequence of up to MaxLen units after the separator, over one representative per
 \* class (letter, `;`, backslash, `]`, space, non-ASCII, an ESC x pair, a C0 control other than BEL)
 OscUnits == { <<120>>, <<59>>, <<92>>, <<93>>, <<32>>, <<233>>, <<27, 120>>, <<1>> }
-OscBodies == UNION { { FoldLeft(LAMBDA acc, u : acc \o u, <<59>>, q) : q \in [1..k -> OscUnits] } : k \in 0..MaxLen }
-OscSystematic ==
+\* (parametrised: TLC evaluates parameterless constant definitions eagerly, whichever family is selected)
+OscBodies(n) == UNION { { FoldLeft(LAMBDA acc, u : acc \o u, <<59>>, q) : q \in [1..k -> OscUnits] } : k \in 0..n }
+OscSystematic(n) ==
   { intro \o <<code>> \o body \o term \o <<122>> :
-      intro \in {<<27, 93>>, <<157>>}, code \in {48, 49, 50, 51}, body \in OscBodies, term \in {<<7>>, <<156>>, <<27, 92>>} }
+      intro \in {<<27, 93>>, <<157>>}, code \in {48, 49, 50, 51}, body \in OscBodies(n), term \in {<<7>>, <<156>>, <<27, 92>>} }
 
 Seeds == CASE Family = "graph"    -> {<<>>}
-           [] Family = "oscx"     -> OscSystematic
+           [] Family = "oscx"     -> OscSystematic(MaxLen)
            [] Family = "pairs"    -> Pairs \cup Triples
            [] Family = "directed" -> Directed \cup LongOnes
            [] Family = "osc"      -> OscStrings
